@@ -282,7 +282,11 @@ def h_misc(cfg):
     if cfg['what'] == 'mix':
         a = env.timeout(sym_num('d0', 'int', 0))
         b = other.timeout(sym_num('d1', 'int', 0))
-        for mk in (lambda: AllOf(env, [a, b]), lambda: AnyOf(env, [a, b]), lambda: a & b, lambda: a | b):
+        b2 = other.timeout(sym_num('d2', 'int', 0))
+        for mk in (lambda: AllOf(env, [a, b]), lambda: AnyOf(env, [a, b]), lambda: a & b, lambda: a | b,
+                   # every operand belongs to another environment than the condition itself
+                   lambda: AllOf(env, [b]), lambda: AnyOf(env, [b, b2]), lambda: env.all_of([b, b2]),
+                   lambda: AllOf(env, [a, AnyOf(other, [b, b2])])):
             try:
                 mk()
                 fail('c05.mixed-environments-refused', 'no ValueError')
